@@ -126,6 +126,16 @@ CHECKS = {
              '(both levels, find_groups on/off) and get_message_type; whatever parses must encode and validate to a report. '
              'Leaks are keyed by (stage, exception type, innermost hl7apy function).',
         note='allowed: result, HL7apyException subclass, ValueError under STRICT'),
+    'C16': dict(
+        technique='runtime monitoring: offline history checker over client-boundary and handler events, with socketpair chunk control and concurrent TCP stress',
+        category='exploration', design='DESIGN.md §4 C16',
+        text='Every splitting of a short frame into <= 3 TCP writes (exhaustive) and seeded splittings of long / multi-byte frames '
+             'are delivered with exact chunk boundaries through a socketpair into the real server object; 2-64 simultaneous '
+             'loopback clients with distinct messages run under a 1 us switch interval with delays inside reply(); faults '
+             '(no start block, close at every prefix, stall beyond the timeout, undecodable bytes, junk). Per connection the '
+             'checker requires exactly one invocation of the right handler with the framed text, the client receiving exactly '
+             'that reply, then close; malformed input: no handler, close.',
+        note='handlers are harness classes passed to MLLPServer; stall verdict is not time-based'),
     'C17': dict(
         technique='runtime monitoring: differential execution of an explicit-argument call corpus across default configurations',
         category='exploration', design='DESIGN.md §4 C17',
@@ -143,6 +153,15 @@ CHECKS = {
              'the validate() verdicts on standard-only / profile-only instances must follow the profile; identity changes nothing; '
              'missing structure and legacy profile raise the stated exceptions; ITI-21 cardinalities are reported.',
         note='edited children are top-level, uniquely named segments and their leaf fields'),
+    'C19': dict(
+        technique='runtime monitoring: sequential-reference comparison under stress, sys.monitoring yield injection, enumerated baton schedules and cold-start schedules in fresh processes',
+        category='exploration', design='DESIGN.md §4 C19',
+        text='A corpus of parse/build/encode/validate/factory calls over all versions is compared with its sequential results '
+             'under (a) 2-16 threads at a 1 us switch interval, (b) seeded yield injection at LINE events concentrated on the '
+             'functions touching process-wide state, (c) a deterministic two-thread baton scheduler with every single hand-over at '
+             'anchor events of warm calls, (d) fresh processes in which the first user of each version is pre-empted at the first '
+             'hit of each distinct anchor location (lazy imports, table construction, first lookups).',
+        note='line-granularity interleavings under the GIL; reference of cold schedules computed in the parent process'),
 }
 
 ORDER = sorted(CHECKS)
